@@ -25,6 +25,12 @@ pub struct Case {
     pub size_updates: Vec<usize>,
     pub framing: Framing,
     pub prelude: u8,
+    /// what follows the header block on the wire: 0 = nothing; 1 = a DATA frame and then the header block of ANOTHER
+    /// exchange on another stream (a server answers streams in any order: the first block is on stream 3, the later one on
+    /// stream 1; a client opens stream 1, then 3); 2 = a DATA frame and trailers on the same stream. The connection start
+    /// is the first block.
+    #[serde(default)]
+    pub tail: u8,
 }
 fn s(x: &str) -> String {
     x.to_string()
@@ -100,7 +106,23 @@ pub fn prelude(kind: u8, request: bool) -> Vec<u8> {
 pub fn stream(c: &Case) -> Vec<u8> {
     let mut d = if c.msg.request { h2::PREFACE.to_vec() } else { vec![] };
     d.extend(prelude(c.prelude, c.msg.request));
-    d.extend(h2::headers_frames(1, &block(c), &c.framing));
+    let first = if c.tail == 1 && !c.msg.request { 3 } else { 1 };
+    d.extend(h2::headers_frames(first, &block(c), &c.framing));
+    if c.tail != 0 {
+        d.extend(h2::frame(0, 0, first, b"some body bytes"));
+        let mut e = HpackEnc::default();
+        let mut b = vec![];
+        let other: Vec<(&str, &str)> = match (c.tail, c.msg.request) {
+            (1, true) => vec![(":method", "POST"), (":path", "/other"), (":scheme", "http"), (":authority", "other.example"), ("user-agent", "other-agent"), ("x-other", "1")],
+            (1, false) => vec![(":status", "404"), ("server", "other-server"), ("x-other", "1")],
+            _ => vec![("x-trailer", "t"), ("grpc-status", "0")],
+        };
+        for (n, v) in other {
+            b.extend(e.field(n, v, Rep::LitNoIdx, false, false));
+        }
+        let sid = if c.tail == 1 { 4 - first } else { first };
+        d.extend(h2::headers_frames(sid, &b, &Framing { end_stream: true, ..Default::default() }));
+    }
     d
 }
 
@@ -202,7 +224,7 @@ fn sized_message(m: &Msg, target: usize) -> Option<Msg> {
         if extra > 0 {
             x.headers.push((s("x-e"), "e".repeat(extra - 1)));
         }
-        let c = Case { msg: x.clone(), pseudo: s("mpas"), reps: vec![Rep::LitNoIdx], huff_names: false, huff_values: false, size_updates: vec![], framing: Framing::default(), prelude: 1 };
+        let c = Case { msg: x.clone(), pseudo: s("mpas"), reps: vec![Rep::LitNoIdx], huff_names: false, huff_values: false, size_updates: vec![], framing: Framing::default(), prelude: 1, tail: 0 };
         (x, block(&c).len())
     };
     let base = probe(0, 0).1;
@@ -239,7 +261,7 @@ fn all_rep_vectors(n: usize) -> Vec<Vec<Rep>> {
 pub fn cases(thorough: bool) -> Vec<(Case, &'static str)> {
     let msgs = messages();
     let mut v = vec![];
-    let plain = |m: &Msg| Case { msg: m.clone(), pseudo: s("mpas"), reps: vec![Rep::LitNoIdx], huff_names: false, huff_values: false, size_updates: vec![], framing: Framing::default(), prelude: 1 };
+    let plain = |m: &Msg| Case { msg: m.clone(), pseudo: s("mpas"), reps: vec![Rep::LitNoIdx], huff_names: false, huff_values: false, size_updates: vec![], framing: Framing::default(), prelude: 1, tail: 0 };
     // (1) representations: uniform vectors on every message x Huffman modes x size updates
     for m in &msgs {
         for rep in ALL_REPS {
@@ -302,6 +324,15 @@ pub fn cases(thorough: bool) -> Vec<(Case, &'static str)> {
         r2.headers = hs;
         v.push((Case { reps: vec![Rep::Indexed], ..plain(&r2) }, "dynamic-table-eviction"));
     }
+    // (1b) more than one header block on the wire: the connection start is the first one
+    for m in msgs.iter().take(8) {
+        for tail in [1u8, 2] {
+            for rep in [Rep::LitNoIdx, Rep::Indexed] {
+                v.push((Case { tail, reps: vec![rep], ..plain(m) }, "later-header-blocks"));
+                v.push((Case { tail, reps: vec![rep], framing: Framing { splits: vec![3], ..Default::default() }, ..plain(m) }, "later-header-blocks"));
+            }
+        }
+    }
     // (2) pseudo-header orders
     for o in ["mpas", "mspa", "pmsa", "aspm", "samp", "mps", "mp"] {
         v.push((Case { pseudo: s(o), ..plain(&msgs[1]) }, "pseudo-order"));
@@ -338,7 +369,11 @@ pub fn cases(thorough: bool) -> Vec<(Case, &'static str)> {
             }
             // continuation combined with padding and priority
             for a in [1usize, len / 2, len.saturating_sub(1)] {
-                v.push((Case { framing: Framing { splits: vec![a], pad: Some(2), prio: Some((false, 0, 15)), end_stream: false }, ..base.clone() }, "continuation"));
+                v.push((Case { framing: Framing { splits: vec![a], pad: Some(2), prio: Some((false, 0, 15)), end_stream: false, cont_flags: 0 }, ..base.clone() }, "continuation"));
+                // undefined flag bits on the CONTINUATION frame (the ones that mean PADDED / PRIORITY / END_STREAM on HEADERS)
+                for cf in [0x08u8, 0x20, 0x29, 0xfb] {
+                    v.push((Case { framing: Framing { splits: vec![a], cont_flags: cf, ..Default::default() }, ..base.clone() }, "continuation"));
+                }
             }
         }
     }
